@@ -44,7 +44,7 @@ def main():
             "summary": meta.get("summary"),
             "needs": meta.get("needs"),
             "author": "independent sub-agent given only the property text and a scratch worktree of /repo",
-            "author_commands": meta.get("commands"),
+            "author_commands": meta.get("author_commands") or meta.get("commands"),
             "confirmed": {
                 "how": "tools/eval_seeded.py: scratch copy of /repo outside /repo and /verif, patch -p1, pinned pytest command, "
                 "demo with PYTHONPATH=<patched copy> and with PYTHONPATH=/repo, then all 20 quick checks with VERIF_REPO=<patched copy>",
